@@ -62,7 +62,7 @@ def build_binary(x0=4e-3, T=723.15, gamma=0.1, site='dislocations', bins=75, min
     return m
 
 
-def build_ternary(x0=(0.098, 0.083), T=1073.0, gamma=0.023, bins=75, minBins=50, maxBins=100, site='bulk'):
+def build_ternary(x0=(0.098, 0.083), T=1073.0, gamma=0.023, bins=75, minBins=50, maxBins=100, site='bulk', **_ignored):
     vlib.use_repo()
     from kawin.precipitation import PrecipitateModel, VolumeParameter
     m = PrecipitateModel(elements=['Al', 'Cr'], phases=['FCC_L12'])
@@ -160,7 +160,7 @@ def instrument(model, log=None, snapshot_psd=True):
     return log
 
 
-def run(model, simTime, solver='euler', max_steps=None, log=None, observer=None):
+def run(model, simTime, solver='euler', max_steps=None, log=None, observer=None, **solve_kwargs):
     """solve; stop after max_steps accepted steps (StopRun raised from the coupled-model slot)"""
     vlib.use_repo()
     from kawin.solver import SolverType
@@ -179,7 +179,7 @@ def run(model, simTime, solver='euler', max_steps=None, log=None, observer=None)
         model.addCouplingModel(Obs())
         model._verif_obs = True
     try:
-        model.solve(simTime, solverType=st, verbose=False)
+        model.solve(simTime, solverType=st, verbose=False, **solve_kwargs)
     except StopRun:
         pass
     return count[0]
